@@ -512,6 +512,11 @@ fn case(rng: &mut Rng, ctx: &mut Ctx) {
         }
     }
     ctx.add("observed.events", ev.len() as u64);
+    // the interleaving actually produced: order of server-side and client-side events
+    let order: String = ev.iter().filter(|e| e.kind != "handler_msg" && e.kind != "client_msg").map(|e| format!("{}:{};", e.kind, e.id)).collect();
+    ctx.distinct("event_orders", &order);
+    let sig_ctx: String = ev.iter().skip_while(|e| e.kind != "signal_fired").take(4).map(|e| format!("{};", e.kind)).collect();
+    ctx.distinct("what_follows_the_signal", &sig_ctx);
     ctx.add("transport.reads", out.pipe_stats.0);
     ctx.add("transport.injected_pendings", out.pipe_stats.2);
     let mut ph = phases.clone();
